@@ -109,3 +109,34 @@ Definition tc_set_app_data (t : tc) (d : bytes) : tc :=
 
 (* spacepackets.ecss.check_pus_crc *)
 Definition check_pus_crc (p : bytes) : bool := crc16 p =? 0.
+
+(* ---- operation histories on a telecommand object (setters do not validate, as in the code) ---- *)
+Inductive tc_op :=
+| TcPack | TcPackNoRecalc | TcCalcCrc
+| TcSetApp (d : bytes) | TcSetSeq (v : Z) | TcSetApid (v : Z) | TcSetSource (v : Z).
+
+Definition sph_with (h : sph) (a c : Z) : sph :=
+  {| ver := ver h; ptype := ptype h; shf := shf h; apid := a; sflags := sflags h; scount := c; dlen := dlen h |}.
+
+Definition tc_apply (t : tc) (o : tc_op) : res tc :=
+  match o with
+  | TcPack => do r <- tc_pack t; Ok (snd r)
+  | TcPackNoRecalc => do r <- tc_pack_norecalc t; Ok (snd r)
+  | TcCalcCrc => tc_calc_crc t
+  | TcSetApp d => Ok (tc_set_app_data t d)
+  | TcSetSeq v => Ok {| tc_sph := sph_with (tc_sph t) (apid (tc_sph t)) v; tc_sec := tc_sec t;
+                        tc_app := tc_app t; tc_crc := tc_crc t |}
+  | TcSetApid v => Ok {| tc_sph := sph_with (tc_sph t) v (scount (tc_sph t)); tc_sec := tc_sec t;
+                         tc_app := tc_app t; tc_crc := tc_crc t |}
+  | TcSetSource v => Ok {| tc_sph := tc_sph t;
+                           tc_sec := {| tcs_service := tcs_service (tc_sec t);
+                                        tcs_subservice := tcs_subservice (tc_sec t);
+                                        tcs_source_id := v; tcs_ack := tcs_ack (tc_sec t) |};
+                           tc_app := tc_app t; tc_crc := tc_crc t |}
+  end.
+
+Fixpoint tc_run (t : tc) (ops : list tc_op) : res tc :=
+  match ops with
+  | [] => Ok t
+  | o :: r => do t' <- tc_apply t o; tc_run t' r
+  end.
